@@ -71,6 +71,9 @@ var scratchMode bool
 func main() {
 	var muts multiFlag
 	flag.Var(&muts, "mutate", "debug/selftest: overlay edit relpath:::old:::new (repeatable); no evidence is written")
+	var mutsAt multiFlag
+	flag.Var(&mutsAt, "mutate-at", "audit: overlay edit relpath@@start@@end@@replacement (byte offsets; repeatable)")
+	auditOnly := flag.Bool("audit", false, "debug: run only the sensitivity audit of -prop and print survivors")
 	selftest := flag.Bool("selftest", false, "run the pinned witness mutants and benign variants of -prop (or all)")
 	prop := flag.String("prop", "", "property id (C01..C20)")
 	tier := flag.String("tier", "quick", "quick|thorough")
@@ -132,6 +135,36 @@ func main() {
 		lo.Overlay = ov
 		scratchMode = true
 	}
+	if len(mutsAt) > 0 {
+		if lo.Overlay == nil {
+			lo.Overlay = map[string][]byte{}
+		}
+		for _, m := range mutsAt {
+			parts := strings.SplitN(m, "@@", 4)
+			if len(parts) != 4 {
+				fmt.Println("MUTATION-NOT-APPLICABLE: bad -mutate-at")
+				os.Exit(3)
+			}
+			path := repoDir() + "/" + parts[0]
+			src, ok := lo.Overlay[path]
+			if !ok {
+				b, err := os.ReadFile(path)
+				if err != nil {
+					fmt.Println("MUTATION-NOT-APPLICABLE:", err)
+					os.Exit(3)
+				}
+				src = b
+			}
+			st, _ := strconv.Atoi(parts[1])
+			en, _ := strconv.Atoi(parts[2])
+			if st < 0 || en > len(src) || st > en {
+				fmt.Println("MUTATION-NOT-APPLICABLE: offsets out of range")
+				os.Exit(3)
+			}
+			lo.Overlay[path] = []byte(string(src[:st]) + parts[3] + string(src[en:]))
+		}
+		scratchMode = true
+	}
 	if *tier == "thorough" {
 		lo.Patterns = []string{"./x/...", "./contrib/..."}
 	}
@@ -165,11 +198,45 @@ func main() {
 		}()
 		f(c)
 	}()
-	if *tier == "thorough" && replayID == "" {
+	if *auditOnly {
+		c.runAudit(100000)
+		for _, sv := range c.Extra["sensitivity_audit"].(map[string]any)["survivors"].([]string) {
+			fmt.Println("SURVIVOR", sv)
+		}
+		for _, sv := range c.Extra["sensitivity_audit"].(map[string]any)["killed_list"].([]string) {
+			fmt.Println("KILLED", sv)
+		}
+		return
+	}
+	if *tier == "thorough" && replayID == "" && !scratchMode {
 		thoroughExtras(c, f)
+		// pinned witnesses + sensitivity audit: informational, never change the exit status
+		wr := runWitnesses(c.Prop, "quick")
+		det, app := 0, 0
+		for _, r := range wr {
+			if strings.HasPrefix(r.Outcome, "skipped") {
+				continue
+			}
+			app++
+			if r.Outcome == "detected" || r.Outcome == "silent" {
+				det++
+			}
+		}
+		c.Extra["witnesses"] = map[string]any{"applied": app, "as_expected": det, "results": wr}
+		fmt.Printf("%s witnesses: %d applied, %d as expected\n", c.Prop, app, det)
+		c.runAudit(auditBudget())
 	}
 	sort.SliceStable(c.Obls, func(i, j int) bool { return c.Obls[i].Rule < c.Obls[j].Rule })
 	os.Exit(c.Finish(time.Since(t0), replayID))
+}
+
+func auditBudget() int {
+	if v := os.Getenv("VERIF_AUDIT_BUDGET"); v != "" {
+		if n, err := strconv.Atoi(v); err == nil {
+			return n
+		}
+	}
+	return 150
 }
 
 func isFlagSet(name string) bool {
@@ -185,7 +252,7 @@ func isFlagSet(name string) bool {
 // thoroughExtras: second load with GOARCH=386 (int-width dependent shapes) and
 // re-evaluation of the same rules there; obligations are merged by id.
 func thoroughExtras(c *Ctx, f func(*Ctx)) {
-	w2, err := Load(LoadOpts{Patterns: []string{"./x/...", "./contrib/..."}, GOARCH: "386"})
+	w2, err := Load(LoadOpts{Patterns: []string{"./x/..."}, GOARCH: "386"}) // contrib/launchtools does not type-check on 386 (dependency constants overflow int)
 	if err != nil {
 		c.Ob(c.Prop+".R0", "GOARCH=386 load").Undecide(err.Error())
 		return
